@@ -299,6 +299,109 @@ def run_squeue(rows, query, w):
     return {"kind": "squeue", "rows": rows, "query": query, "ws": w, "treated": bool(job.is_complete()), "parsed": len(parsed)}
 
 
+def squeue_sim(rows, cmd):
+    """A scheduler: what `squeue` prints for the command line `cmd` when it holds the jobs `rows` ([id, state], all of the
+    calling user, named job_<id>).  Options as in squeue(1): -u/--user, -j/--jobs, -n/--name, -t/--states (a filter: only the
+    listed states; 'all' = every state), -h/--noheader, --Format/-O/-o (columns jobid, name, state).  Returns (rc, out, err)."""
+    import shlex
+    argv = shlex.split(cmd)
+    if not argv or os.path.basename(argv[0]) != "squeue":
+        return 127, "", "command not found"
+    opts = {"user": None, "jobs": None, "name": None, "states": None, "noheader": False, "format": ["jobid", "name", "state"]}
+    short = {"-u": "user", "-j": "jobs", "-n": "name", "-t": "states", "-O": "format", "-o": "format"}
+    longs = {"--user": "user", "--jobs": "jobs", "--name": "name", "--states": "states", "--Format": "format", "--format": "format"}
+    i = 1
+    while i < len(argv):
+        a = argv[i]
+        if a in ("-h", "--noheader"):
+            opts["noheader"] = True
+        elif a in short or a in longs:
+            if i + 1 >= len(argv):
+                return 1, "", f"squeue: option requires an argument -- '{a}'"
+            opts[short.get(a) or longs[a]] = argv[i + 1]
+            i += 1
+        elif a.startswith("--") and "=" in a and a.split("=", 1)[0] in longs:
+            opts[longs[a.split("=", 1)[0]]] = a.split("=", 1)[1]
+        elif len(a) > 2 and a[:2] in short:
+            opts[short[a[:2]]] = a[2:]
+        else:
+            return 1, "", f"squeue: unrecognized option '{a}'"
+        i += 1
+    cols = opts["format"] if isinstance(opts["format"], list) else [c.split(":")[0].strip().lower() for c in opts["format"].split(",")]
+    if any(c not in ("jobid", "name", "state") for c in cols):
+        return 1, "", "squeue: error: Invalid job format specification"
+    sel = [[i_, st] for i_, st in rows]
+    if opts["jobs"] is not None:
+        want = opts["jobs"].split(",")
+        if any(w not in [r[0] for r in rows] for w in want):
+            return 1, "", "slurm_load_jobs error: Invalid job id specified"
+        sel = [r for r in sel if r[0] in want]
+    if opts["name"] is not None:
+        sel = [r for r in sel if "job_" + r[0] in opts["name"].split(",")]
+    if opts["states"] is not None:
+        want = [x.strip().upper() for x in opts["states"].split(",")]
+        if "ALL" not in want:
+            sel = [r for r in sel if r[1] in want]
+    val = {"jobid": lambda r: r[0], "name": lambda r: "job_" + r[0], "state": lambda r: r[1]}
+    lines = []
+    if not opts["noheader"]:
+        lines.append("".join(f"{c.upper():<20}" for c in cols))
+    for r in sel:
+        lines.append("".join(f"{val[c](r):<20}" for c in cols))
+    return 0, "".join(l + "\n" for l in lines), ""
+
+
+def squeuecmd_inputs(rng, count):
+    ids = ["100", "101", "102", "7"]
+    for st in STATES:
+        yield [["100", st]], "100"
+        yield [["101", "RUNNING"], ["100", st]], "100"
+        yield [["100", st], ["102", "PENDING"]], "100"
+    yield [], "100"
+    yield [["101", "RUNNING"]], "100"
+    for _ in range(count):
+        n = rng.randint(0, 3)
+        yield [[i, STATES[rng.randrange(len(STATES))]] for i in rng.sample(ids, n)], ids[rng.randrange(4)]
+
+
+def run_squeuecmd(rows, query):
+    """The whole status path against a scheduler that interprets the squeue command line: the real SlurmManager
+    (check_statuses / check_status) with run_command answered by squeue_sim, the real HpcStatusCollector and
+    AsyncHpcSubmitter.is_complete."""
+    import jade.hpc.slurm_manager as sm
+    from jade.hpc.common import HpcJobStatus
+    from jade.hpc.hpc_submitter import AsyncHpcSubmitter, HpcStatusCollector
+    from jade.models import HpcConfig, SlurmConfig
+    cmds = []
+
+    def stub(cmd, output=None, **kw):
+        cmds.append(cmd)
+        rc, out, err = squeue_sim(rows, cmd)
+        if output is not None:
+            output["stdout"], output["stderr"] = out, err
+        return rc
+    orig = sm.run_command
+    sm.run_command = stub
+    rec = {"kind": "squeuecmd", "rows": rows, "query": query, "treated": False, "single": "", "errA": "", "errB": ""}
+    try:
+        mgr = sm.SlurmManager(HpcConfig(hpc_type="slurm", hpc=SlurmConfig(account="a")))
+        try:
+            job = AsyncHpcSubmitter.create_from_id(mgr, HpcStatusCollector(mgr, 10), query)
+            rec["treated"] = bool(job.is_complete())
+        except Exception as e:   # noqa
+            rec["errA"] = type(e).__name__
+        try:
+            info = mgr.check_status(job_id=query)
+            rec["single"] = {HpcJobStatus.NONE: "none", HpcJobStatus.QUEUED: "queued", HpcJobStatus.RUNNING: "running",
+                             HpcJobStatus.COMPLETE: "complete", HpcJobStatus.UNKNOWN: "unknown"}[info.status]
+        except Exception as e:   # noqa
+            rec["errB"] = type(e).__name__
+    finally:
+        sm.run_command = orig
+    rec["cmds"] = cmds
+    return rec
+
+
 SUBMIT = {"ok": (0, "Submitted batch job 123\n"), "ok_extra": (0, "sbatch: note\nSubmitted batch job 45 on cluster x\n"),
           "empty": (0, ""), "garbage": (0, "error: something else 99\n"), "nonum": (0, "Submitted batch job \n"),
           "rc1": (1, "Submitted batch job 7\n"), "rc1_empty": (1, "")}
@@ -326,19 +429,19 @@ def run_submit(cls):
 
 
 # ---------------------------------------------------------------------------------------------- C19
-SYM = {"a": "a", "c": "c", "s": " ", "q": "'", "d": '"', "b": "\\", "x": "$"}
+SYM = {"a": "a", "c": "c", "s": " ", "t": "\t", "q": "'", "d": '"', "b": "\\", "x": "$", "h": "#"}
 INV = {v: k for k, v in SYM.items()}
 NAMES = ["j1", "job_2", "a.b-c", "X"]
 
 
 def launch_inputs(max_len, rng=None, sample_last=None):
-    """Every command string up to max_len over the 7-symbol alphabet (the last length optionally sampled), crossed with
+    """Every command string up to max_len over the 9-symbol alphabet (the last length optionally sampled), crossed with
     names, append flags and exit codes by rotation (each value of each dimension occurs often; the tokenizer dimension is
     the exhaustive one)."""
     k = 0
     rcs = [0, 1, 2, 127, 128, 255, 3, 42]
     for n in range(1, max_len + 1):
-        strings = itertools.product("acsqdbx", repeat=n)
+        strings = itertools.product("acstqdbxh", repeat=n)
         if n == max_len and sample_last is not None:
             allp = list(strings)
             strings = rng.sample(allp, min(sample_last, len(allp)))
@@ -559,3 +662,20 @@ def run_config(c):
         logging.shutdown()
         shutil.rmtree(base, ignore_errors=True)
     return rec
+
+
+# ---------------------------------------------------------------------------------------------- node queue (C02/C04/C06)
+def explore_nodequeue(inp):
+    """All exit schedules of one input on the real JobQueue/AsyncCliCommand; returns the list of final observations."""
+    from harness import nodequeue
+    return nodequeue.explore(inp)
+
+
+def run_nodequeue(inp, sched):
+    from harness import nodequeue
+    o = nodequeue.run_queue(inp, sched)
+    if o["end"] == "more" and not o["alive"] and not o["rerun"]:
+        o["end"] = "stuck"
+    o.pop("alive", None)
+    o.pop("rerun", None)
+    return o
